@@ -17,7 +17,7 @@ RULE = ("(1) every runtime block of ET/DT/ES (both Modbus framings; ES blocks of
         "style / field index, outcome class) tuples")
 ASSUMPTIONS = ["DT.read_settings_data() is outside the property's wording (it names ET and ES for the bulk settings read)",
                "a key may map to None; the key set must contain every id of the covered sensors/settings"]
-MUST = ["timestamp_fields_checked", "source_constants_as_register_contents", "single_setting_reads_vs_own_registers", "repeated_polls_all_ids", "time_field_ranges_checked", "settings_none_pattern_checked", "undecodable_value_read_twice", "stateful_decode_compared", "settings_registers_refused", "single_reads_after_capability_change", "blocks_decoded", "none_values_seen", "valueerror_paths_seen", "field_sweeps", "end_to_end_runtime",
+MUST = ["settings_registers_answered_with_other_exceptions", "timestamp_fields_checked", "source_constants_as_register_contents", "single_setting_reads_vs_own_registers", "repeated_polls_all_ids", "time_field_ranges_checked", "settings_none_pattern_checked", "undecodable_value_read_twice", "stateful_decode_compared", "settings_registers_refused", "single_reads_after_capability_change", "blocks_decoded", "none_values_seen", "valueerror_paths_seen", "field_sweeps", "end_to_end_runtime",
         "end_to_end_settings", "single_reads", "es_short_blocks"]
 EXHAUSTIVE = {"quick": False, "thorough": True}
 
@@ -225,6 +225,10 @@ def e2e_part(spec, part):
                 for a in rnd.sample((47120, 45482, 45264, 47010, 47500, 47916, 45132), rnd.randrange(1, 4)):
                     sim.refused.append((a, a))
                 part.count("settings_registers_refused")
+            if rnd.random() < 0.4:      # ... or answers single setting registers with another exception code (busy, device failure): that
+                for a in rnd.sample((47120, 45482, 45264, 47010, 47500, 47916, 45132, 47907), rnd.randrange(1, 3)):      # value is unknown (None), the rest decodes
+                    sim.exc_map[(3, a)] = rnd.choice((4, 6, 1, 11))
+                part.count("settings_registers_answered_with_other_exceptions")
         elif fam == "DT":
             sim = models.dt_sim(tag=rnd.choice(("DTU", "MSU", "DSN", "PSC")), rnd=rnd, style=style)
         else:
@@ -271,6 +275,8 @@ def e2e_part(spec, part):
                 for st_ in inv.settings():
                     if st_.id_ not in out["st"] or getattr(st_, "size_", 0) <= 0:
                         continue
+                    if fam == "ET" and any((3, a_) in sim.exc_map for a_ in range(st_.offset, st_.offset + (st_.size_ + 1) // 2)):
+                        continue        # (answered with an exception frame: no expectation from the register content)
                     if fam == "ET":
                         own = sim.get_bytes(st_.offset, (st_.size_ + 1) // 2)
                         own = own[:st_.size_] if type(st_).__name__ != "ByteL" else own     # (ByteL skips the high byte itself)
@@ -305,7 +311,8 @@ def e2e_part(spec, part):
                 if getattr(st_, "size_", 0) > 0 and fam in ("ET", "ES"):
                     if fam == "ET" or st_.offset >= 1000:
                         nreg = (st_.size_ + 1) // 2
-                        own = None if sim.is_refused(st_.offset, nreg) else sim.get_bytes(st_.offset, nreg)
+                        own = None if sim.is_refused(st_.offset, nreg) or any((3, a_) in sim.exc_map for a_ in range(st_.offset, st_.offset + nreg)) \
+                            else sim.get_bytes(st_.offset, nreg)
                         if own is not None and type(st_).__name__ != "ByteL":
                             own = own[:st_.size_]
                     else:
